@@ -44,8 +44,8 @@ class StreamFlowExecutor(Executor):
             for task in tasks:
                 task.cancel()
             await asyncio.gather(*tasks)
-            # Mark the executor as closed
-            self._closed = True
+            # Terminate all steps and mark the executor as closed
+            await self.close()
 
     async def _handle_exception(self, task: asyncio.Task[Token | None]) -> Token | None:
         try:
@@ -126,6 +126,11 @@ class StreamFlowExecutor(Executor):
                     if not step.terminated
                 )
             )
+            # Cancel the step tasks that are still pending
+            pending = [t for t in self.executions if not t.done()]
+            for task in pending:
+                task.cancel()
+            await asyncio.gather(*pending, return_exceptions=True)
             # Mark the executor as closed
             self._closed = True
 
